@@ -3,9 +3,9 @@ package spv
 import (
 	"math"
 	"os"
-	"strconv"
 	"runtime/debug"
 	"sort"
+	"strconv"
 	"strings"
 	"testing"
 
@@ -229,7 +229,7 @@ func TestRobustAgainstCorruptModules(t *testing.T) {
 		seed ^= seed << 17
 		return seed
 	}
-	iters := 4000
+	iters := 1500
 	if testing.Short() {
 		iters = 500
 	}
@@ -279,5 +279,46 @@ func TestRobustAgainstCorruptModules(t *testing.T) {
 			}
 			_ = res
 		}()
+	}
+}
+
+// Valid WGSL that GenerateSPIRV rejects (suspected naga defects seen while writing the
+// execution tests; they belong to property C08).  Logged, never failed.
+func TestNagaRejectsValidPrograms(t *testing.T) {
+	progs := map[string]string{
+		"compound assignment through a pointer parameter": hdrOA + `
+fn bump(p: ptr<function, u32>, by: u32) { *p += by; }
+@compute @workgroup_size(1) fn main() { var x = a[0]; bump(&x, 3u); o[0] = x; }`,
+		"all() builtin": hdrOI + `
+@compute @workgroup_size(1) fn main() { let v = vec3<i32>(a[0], a[1], a[2]); o[0] = select(0, 1, all(v > vec3<i32>(-3))); }`,
+		"any() builtin": hdrOI + `
+@compute @workgroup_size(1) fn main() { let v = vec3<i32>(a[0], a[1], a[2]); o[0] = select(0, 1, any(v > vec3<i32>(2))); }`,
+	}
+	for name, src := range progs {
+		if _, err := compileWGSL(src, spirv.Version1_3, false); err != nil {
+			t.Logf("known defect: %s: %v", name, err)
+		} else {
+			t.Logf("%s: now accepted", name)
+		}
+	}
+}
+
+func TestDuplicatePointerTypesObservation(t *testing.T) {
+	m := mustModule(t, mutSrc, spirv.Version1_3)
+	ws := words(m)
+	tp := findInst(t, m, func(in *Inst) bool { return in.Op == OpTypePointer })
+	ws = insert(ws, tp.Index+1, mkInst(OpTypePointer, m.Bound, tp.Args[0], tp.Args[1]))
+	mm, err := Parse(encode(m, ws, m.Bound+1))
+	if err != nil {
+		t.Fatal(err)
+	}
+	if is := Validate(mm); len(is) != 0 {
+		t.Errorf("duplicate pointer type must not be a violation: %v", is)
+	}
+	if obs := DuplicatePointerTypes(mm); len(obs) != 1 {
+		t.Errorf("observations: %v", obs)
+	}
+	if obs := DuplicatePointerTypes(m); len(obs) != 0 {
+		t.Logf("naga itself duplicates pointer types: %v", obs)
 	}
 }
